@@ -464,6 +464,34 @@ func (c txConfig) events() []txEvent {
 }
 
 func runTx(rep *rt.Report, c txConfig, deadline time.Time) {
+	st := seq.Explore(txCfg(c, deadline))
+	absorb(rep, fmt.Sprintf("%s: persistent base=%v, committed content %v, %d children x <=%d ops, direct parent ops=%v, paths %q, values %q, depth<=%d",
+		c.name, c.persistent, c.initial, c.children, c.opsPerKid, c.directOps, c.paths, c.vals, c.depth), st)
+}
+
+// runTxLong: ONE child with a long history of its own (every cycle of 1..2 child operations repeated up to
+// `repeats` times) which is then merged; judged after the merge at every repetition count.
+func runTxLong(rep *rt.Report, c txConfig, repeats int, deadline time.Time) {
+	cfg := txCfg(c, deadline)
+	evs := c.events()
+	var open, merge uint8
+	var childOps []uint8
+	for i, e := range evs {
+		switch {
+		case e.Child == 0 && e.K == 'o':
+			open = uint8(i)
+		case e.Child == 0 && e.K == 'm':
+			merge = uint8(i)
+		case e.Child == 0 && (e.K == 'I' || e.K == 'D'):
+			childOps = append(childOps, uint8(i))
+		}
+	}
+	cfg.Stems, cfg.CycleOps, cfg.Tail = [][]uint8{{open}}, childOps, []uint8{merge}
+	st := seq.Lasso(cfg, 0, 2, repeats)
+	absorbLasso(rep, fmt.Sprintf("%s: one child opened, every cycle of 1..2 of its operations (paths %q, values %q) repeated up to %d times, then merged; judged after the merge for every repetition count", c.name, c.paths, c.vals, repeats), st)
+}
+
+func txCfg(c txConfig, deadline time.Time) seq.Config {
 	evs := c.events()
 	cfg := seq.Config{
 		Name: c.name, NOps: len(evs), MaxDepth: c.depth, Workers: rt.Workers(), Deadline: deadline,
@@ -541,9 +569,7 @@ func runTx(rep *rt.Report, c txConfig, deadline time.Time) {
 			return seq.Outcome{Key: k}
 		},
 	}
-	st := seq.Explore(cfg)
-	absorb(rep, fmt.Sprintf("%s: persistent base=%v, committed content %v, %d children x <=%d ops, direct parent ops=%v, paths %q, values %q, depth<=%d",
-		c.name, c.persistent, c.initial, c.children, c.opsPerKid, c.directOps, c.paths, c.vals, c.depth), st)
+	return cfg
 }
 
 var pfPaths = []string{"0a1b", "0a1c", "0a2b", "0b22", "1c00", "0a1d"}
@@ -590,6 +616,15 @@ func C03(tier rt.Tier) int {
 	}
 	for _, c := range runs {
 		runTx(rep, c, time.Now().Add(per))
+	}
+	if !rt.SubRun {
+		// long histories inside one child before it is merged
+		reps := 40
+		if tier == rt.Thorough {
+			reps = 120
+		}
+		runTxLong(rep, txConfig{name: "long-child", initial: map[string]string{"0a1b": "p", "0b22": "p"}, paths: pfPaths[:4], vals: []string{"x", "y"}, children: 1, opsPerKid: 1 << 20, directOps: false, depth: 1}, reps, time.Now().Add(per))
+		runTxLong(rep, txConfig{name: "long-child-nested-pnodedb", persistent: true, initial: map[string]string{"aa": "p", "aaab": "p"}, paths: nested[:4], vals: []string{"x", "y"}, children: 1, opsPerKid: 1 << 20, directOps: false, depth: 1}, reps/2, time.Now().Add(per))
 	}
 	rep.RunVariant()
 	rep.Set("rule", "BFS over all event histories {open child, insert/delete in a child or directly in the block trie, merge child (MergeMPTChanges, in one run MergeChanges(child.GetChanges()), + txn-cache commit), discard child}; children are LevelNodeDB(mem, parent.db) tries sharing one StateCache/BlockCache; after every event the parent's deep fingerprint (root, pending changes with re-encoded nodes, deletes, every node of its writable store re-hashed) must be unchanged unless the event is an accepted merge or a direct parent op; merges of stale children must be rejected; every non-stale view is compared with its map model")
